@@ -73,6 +73,7 @@ Inv_C08(e) ==
             (e.err.nil <=> Canonical(e.in, e.lang)))
       [] e.op = "ListSource" ->
             /\ e.words = List(e.lang) /\ e.file = Golden.filescp[e.lang + 1] /\ e.var = Golden.varscp[e.lang + 1]
+      [] e.op = "Crash" -> FALSE          \* the process died inside the library while list words were being validated
       [] OTHER -> TRUE
 
 SweepPredicted(e) ==        \* indices of the last words that complete prefix e.prefix to a valid sentence
@@ -85,6 +86,7 @@ Inv_C02(e) ==
                            \* whatever a generator returned with a nil error (under a supported language) must validate
                            /\ (Has(e, "gen") /\ e.gen /\ IsSupported(e.lang) => NoCrash(e) /\ e.err.nil /\ e.valid)
       [] e.op = "Sweep" -> SweepPredicted(e) \subseteq {e.accepted[i] : i \in 1..Len(e.accepted)}
+      [] e.op = "Crash" -> FALSE          \* the process died inside the library while valid sentences were being validated
       [] OTHER -> TRUE
 
 Inv_C03(e) ==
@@ -136,6 +138,9 @@ Inv_C06(e) ==
 
 Inv_C07(e) ==
     CASE e.op = "Swap" -> (source = "os" => e.prev_is_os)
+      [] e.op = "NewMnemonic" /\ Has(e, "delivered") ->      \* overlapping calls: each output is made of the bytes delivered to that call
+            (e.err.nil /\ BigOK(e.n) /\ IsSupported(e.lang) =>
+                LET nd == e.n.v + e.n.v \div 3 IN Len(e.delivered) >= nd /\ e.out = Mnemonic(SubSeq(e.delivered, 1, nd), e.lang))
       [] e.op = "NewMnemonic" /\ source # "os" ->             \* whatever the source: the output is made of the source's bytes only
             (e.err.nil /\ BigOK(e.n) /\ IsSupported(e.lang) => ReadFullOK /\ e.out = Mnemonic(SubSeq(delivered, 1, need), e.lang))
       [] e.op = "NewMnemonic" -> (source = "os" /\ BigOK(e.n) /\ IsSupported(e.lang) =>
@@ -185,13 +190,15 @@ ArgsOf(e) ==
       [] e.op = "String" -> <<e.op, e.n.neg, e.n.digits>>
       [] e.op = "NewMnemonic" -> <<e.op, e.n.neg, e.n.digits, e.lang, delivered>>
       [] OTHER -> <<>>
-MemoKey(e) == Has(e, "argid") /\ e.argid \in DOMAIN memo
+\* results are remembered per argument identity; for generation the bytes drawn are part of the identity
+MemoId(e) == <<e.argid, IF e.op = "NewMnemonic" THEN delivered ELSE <<>> >>
+MemoKey(e) == Has(e, "argid") /\ MemoId(e) \in DOMAIN memo
 Inv_C13(e) ==
     /\ (e.op = "ByEntropy" => e.ent_same)
     /\ (Has(e, "in_same") => e.in_same)                      \* argument strings are not written through
     /\ (e.op = "Recheck" => e.same)
     /\ (e.op = "Buf" => e.before = e.after)
-    /\ (MemoKey(e) /\ memo[e.argid][1] = ArgsOf(e) => memo[e.argid][2] = ResultOf(e))
+    /\ (MemoKey(e) /\ memo[MemoId(e)][1] = ArgsOf(e) => memo[MemoId(e)][2] = ResultOf(e))
     \* and the result is the one the arguments determine
     /\ (ValidEnc(e) => e.out = Mnemonic(e.ent, e.lang))
     /\ (e.op = "ByEntropy" /\ ~EntLenOK(e.ent_len) => ~e.err.nil)
@@ -295,8 +302,8 @@ Step ==
           /\ infra' = IF Cardinality(infra) < 10
                       THEN infra \cup ProtocolBreak(e) \cup (IF GroupInfra(e) THEN {<<l, "group members are not NFKD-equivalent">>} ELSE {})
                       ELSE infra
-          /\ memo' = IF Has(e, "argid") /\ e.argid \notin DOMAIN memo
-                     THEN memo @@ (e.argid :> <<ArgsOf(e), ResultOf(e)>>) ELSE IF e.op = "Reset" THEN <<>> ELSE memo
+          /\ memo' = IF Has(e, "argid") /\ MemoId(e) \notin DOMAIN memo
+                     THEN memo @@ (MemoId(e) :> <<ArgsOf(e), ResultOf(e)>>) ELSE IF e.op = "Reset" THEN <<>> ELSE memo
           /\ grp' = IF Has(e, "group") THEN (IF InGroup(e) THEN grp
                                               ELSE [id |-> e.group, form |-> FormOf(e),
                                                     res |-> IF e.op = "Check" THEN e.err.nil ELSE e.seed])
